@@ -4,6 +4,7 @@ import (
 	"math/rand"
 	"bytes"
 	"encoding/binary"
+	"encoding/hex"
 	"encoding/json"
 	"fmt"
 	"os"
@@ -511,6 +512,23 @@ func seedBoxes(maxSize int) []seedBox {
 	files, names := repoMediaFiles()
 	var out []seedBox
 	seen := map[string]bool{}
+	// committed regression corpus first (spec/seed-boxes.txt)
+	vd := os.Getenv("VERIF_DIR")
+	if vd == "" {
+		vd = "/verif"
+	}
+	if raw, err := os.ReadFile(filepath.Join(vd, "spec", "seed-boxes.txt")); err == nil {
+		for ln, line := range strings.Split(string(raw), "\n") {
+			if i := strings.Index(line, "#"); i >= 0 {
+				line = line[:i]
+			}
+			line = strings.TrimSpace(line)
+			if b, err := hex.DecodeString(line); err == nil && len(b) >= 8 && !seen[string(b)] {
+				seen[string(b)] = true
+				out = append(out, seedBox{b, fmt.Sprintf("corpus:%d", ln+1)})
+			}
+		}
+	}
 	for i, d := range files {
 		var bx []rawBox
 		walkBoxes(d, 0, "", &bx)
